@@ -333,6 +333,22 @@ async fn run_server_tls(log: &Log, r: &mut Rng, n: u64) {
             if r.chance(1, 8) { let k = r.below(f.len() as u64) as usize; f[k] ^= 1 << r.below(8); }      // bit flip (incl. length field)
             bytes.extend_from_slice(&f);
         }
+        // a stream is opened and its destination header is hostile: every address type byte, truncated or over-long
+        // names, non-UTF-8 names, the UDP-over-TCP magic name followed by garbage
+        if r.chance(2, 3) {
+            let sid = *r.pick(&[1u32, 3, 0x7fff_ffff]);
+            bytes.extend_from_slice(&frame_bytes(1, sid, &[]));
+            let hdr: Vec<u8> = match r.below(6) {
+                0 => { let mut v = vec![r.next() as u8]; v.extend((0..r.range(0, 30)).map(|_| r.next() as u8)); v }
+                1 => { let mut v = vec![*r.pick(&[0u8, 2, 5, 6, 0x7f, 0x80, 0xff])]; v.extend_from_slice(&[1, 2, 3, 4, 0, 80]); v }
+                2 => { let l = *r.pick(&[0u8, 1, 255]); let mut v = vec![3u8, l]; v.extend((0..l as usize).map(|_| *r.pick(&[0xffu8, 0x00, b'a', 0xc3, b'.']))); v.extend_from_slice(&[0, 80]); v }
+                3 => { let mut v = vec![3u8, 200]; v.extend_from_slice(b"short"); v }
+                4 => { let m = b"sp.v2.udp-over-tcp.arpa"; let mut v = vec![3u8, m.len() as u8]; v.extend_from_slice(m); v.extend_from_slice(&[0, 0]); v.extend((0..r.range(0, 40)).map(|_| r.next() as u8)); v }
+                _ => { let mut v = dest.clone(); v.truncate(r.range(1, 6) as usize); v }
+            };
+            bytes.extend_from_slice(&frame_bytes(2, sid, &hdr));
+            if r.chance(1, 2) { bytes.extend_from_slice(&frame_bytes(3, sid, &[])); }
+        }
         let mut closed = false;
         if let Ok(tcp) = tokio::net::TcpStream::connect(&server).await {
             let name = tokio_rustls::rustls::pki_types::ServerName::IpAddress(std::net::IpAddr::from([127, 0, 0, 1]).into());
